@@ -7,3 +7,7 @@ package run
 const AutoYield = false
 
 func installAuto() {}
+
+// setClockShift: the library of this binary reads the real time.Now; there
+// is no seam to shift it through.
+func setClockShift(shift int64) int64 { return 0 }
